@@ -311,6 +311,17 @@ func (un *Unit) resolveModifies(fr *Frame) []modEntry {
 			out = append(out, modEntry{comp: "G_" + text})
 			continue
 		}
+		if strings.HasPrefix(text, "all ") {
+			cs, err := un.allComps(strings.TrimSpace(text[4:]), sc)
+			if err != nil {
+				un.outside = "contract error: " + err.Error()
+				return nil
+			}
+			for _, c := range cs {
+				out = append(out, modEntry{comp: c})
+			}
+			continue
+		}
 		if strings.HasSuffix(text, "[*]") {
 			e, err := parseExpr(strings.TrimSuffix(text, "[*]"))
 			if err != nil {
@@ -561,4 +572,51 @@ func gatUsed(un *Unit, o *Obl, name string) bool {
 		}
 	}
 	return false
+}
+
+// allComps resolves `all T` / `all T.f`: the heap components holding every field (or field f) of every object of struct type T.
+func (un *Unit) allComps(text string, sc *Scope) ([]string, error) {
+	tname, fname := text, ""
+	t, _, err := sc.resolveType(tname)
+	if err != nil || t == nil {
+		if i := strings.LastIndex(text, "."); i >= 0 {
+			tname, fname = text[:i], text[i+1:]
+			t, _, err = sc.resolveType(tname)
+		}
+	}
+	if err != nil {
+		return nil, err
+	}
+	if t == nil {
+		return nil, fmt.Errorf("all %s: unknown type", text)
+	}
+	if mt, ok := t.Underlying().(*types.Map); ok {
+		d, vv, l := un.mapComps(mt)
+		return []string{d, vv, l}, nil
+	}
+	stt, ok := t.Underlying().(*types.Struct)
+	if !ok {
+		return nil, fmt.Errorf("all %s: not a struct or map type", text)
+	}
+	var out []string
+	var walk func(t types.Type, stt *types.Struct)
+	walk = func(t types.Type, stt *types.Struct) {
+		for i := 0; i < stt.NumFields(); i++ {
+			if fname != "" && stt.Field(i).Name() != fname {
+				continue
+			}
+			ft := stt.Field(i).Type()
+			if isStructType(ft) {
+				walk(ft, ft.Underlying().(*types.Struct))
+				continue
+			}
+			c, _ := un.fieldComp(t, i)
+			out = append(out, c)
+		}
+	}
+	walk(t, stt)
+	if len(out) == 0 {
+		return nil, fmt.Errorf("all %s: no such field", text)
+	}
+	return out, nil
 }
